@@ -1,5 +1,13 @@
-"""Registry: which scenario models decide which property, with which TLC formulas, and which
-observation fields of a divergence count as a violation of that property (the lens)."""
+"""Registry: which scenario models decide which property, with which TLC formulas (spec/Scn.tla), and which
+part of a divergence between the model's prediction and the code's observation counts as a violation of that
+property (the lens).
+
+A lens is a list of rules; a divergence is inside the lens when one rule matches:
+  rule = (field prefixes, step filter)
+  field prefixes: 'r' result/exception, 'o' emitted frames, 'e' events, 'q.lw' ... queries, 'z.*' state projection
+  step filter: None (any step) or a set of tags; a step carries the tags
+      'call', 'call:<op>', 'recv', 'dlv', 'frame:<TYPE>' for every frame type it delivers
+"""
 
 
 def sc(module, quick, thorough, invariants=(), **kw):
@@ -9,12 +17,149 @@ def sc(module, quick, thorough, invariants=(), **kw):
 
 
 GENERIC = ['RaisingCallEmitsNothing', 'OnlyKnownExceptions']
+ANY = None
+ALL_PUBLIC = ['r', 'o', 'e', 'q']
+STATE_FSM = ['z.streams.st', 'z.streams.by', 'z.streams.cl', 'z.streams.hs', 'z.streams.ts', 'z.streams.hr', 'z.streams.tr',
+             'z.streams', 'z.closed', 'z.conn']
 
-PROPS = {
-    'C06': {'scenarios': [sc('MC_LifeS', 4, 6, GENERIC), sc('MC_LifeC', 4, 6, GENERIC)]},
+
+def S(*names):
+    return set(names)
+
+
+SCEN = {
+    'LifeS': lambda inv=(): sc('MC_LifeS', 4, 5, inv),
+    'LifeC': lambda inv=(): sc('MC_LifeC', 4, 5, inv),
+    'CloseS': lambda inv=(): sc('MC_CloseS', 4, 5, inv),
+    'FlowS': lambda inv=(): sc('MC_FlowS', 4, 5, inv),
+    'MiscC': lambda inv=(): sc('MC_MiscC', 4, 6, inv),
+    'MiscS': lambda inv=(): sc('MC_MiscS', 4, 6, inv),
+    'Pair1': lambda inv=(): sc('MC_Pair1', 4, 5, inv),
+    'SetC': lambda inv=(): sc('MC_SetC', 4, 5, inv),
+    'SetS': lambda inv=(): sc('MC_SetS', 4, 5, inv),
+    'HdrOutC': lambda inv=(): sc('MC_HdrOutC', 3, 4, inv),
+    'HdrOutS': lambda inv=(): sc('MC_HdrOutS', 3, 4, inv),
+    'HdrInS': lambda inv=(): sc('MC_HdrInS', 3, 4, inv),
+    'HdrInC': lambda inv=(): sc('MC_HdrInC', 3, 4, inv),
+    'LenC': lambda inv=(): sc('MC_LenC', 3, 4, inv),
+    'LenS': lambda inv=(): sc('MC_LenS', 4, 5, inv),
+    'PushS': lambda inv=(): sc('MC_PushS', 4, 5, inv),
+    'PushC': lambda inv=(): sc('MC_PushC', 5, 6, inv),
 }
 
 
+def scen(names, inv):
+    return [SCEN[n](list(inv)) for n in names.split()]
+
+
+PROPS = {
+    'C01': {'scenarios': scen('Pair1', ['P_C01_DeliveredSendsAccepted', 'RaisingCallEmitsNothing']) + [sc('MC_Pair2', 5, 7, ['P_C01_DeliveredSendsAccepted', 'RaisingCallEmitsNothing'])],
+            'lens': [(ALL_PUBLIC, ANY)]},
+    'C02': {'scenarios': scen('Pair1 LifeS LifeC MiscC', ['P_C02_FramesWithinLimits', 'RaisingCallEmitsNothing']),
+            'lens': [(['o'], ANY), (['q.mof'], ANY)]},
+    'C03': {'scenarios': scen('FlowS SetC PushS', ['P_C03_SendWithinWindows', 'P_C03_WindowsBounded']),
+            'lens': [(['q.lw', 'z.ow', 'z.streams.ow'], ANY), (['r', 'o'], S('call:data')), (['r', 'e'], S('frame:WU'))]},
+    'C04': {'scenarios': scen('FlowS CloseS PushC', ['P_C04_InboundDataExactlyAtWindow', 'P_C04_RemoteWindowIsAdvertised']),
+            'lens': [(['q.rw', 'z.iw', 'z.streams.iw'], ANY), (['r', 'o', 'e'], S('frame:DATA', 'call:inc', 'call:ack'))]},
+    'C05': {'scenarios': scen('FlowS', ['P_C05_AutoUpdateWithinBounds']),
+            'lens': [(['r', 'o', 'q.rw', 'z.iw', 'z.streams.iw'], S('call:ack')), (['q.rw', 'z.iw', 'z.streams.iw'], S('frame:DATA', 'frame:SET'))]},
+    'C06': {'scenarios': scen('LifeS LifeC', GENERIC + ['P_C06_StreamStatesAreRfcStates']),
+            'lens': [(['r', 'o', 'e'] + STATE_FSM, ANY)]},
+    'C07': {'scenarios': scen('LifeS LifeC Pair1 PushC', ['P_C07_EventsFitRole']),
+            'lens': [(['e'] + STATE_FSM, S('recv', 'dlv')), (['r'], S('frame:HEADERS', 'frame:DATA'))]},
+    'C08': {'scenarios': scen('LifeS LifeC MiscC MiscS', ['P_C08_RoleRestrictedSends', 'RaisingCallEmitsNothing']),
+            'lens': [(['r', 'o'], S('call:hdr', 'call:data', 'call:end', 'call:push', 'call:alt', 'call:prio')), (['z.conn'], ANY)]},
+    'C09': {'scenarios': scen('LifeS LifeC SetC PushC', ['P_C09_IdsIncreaseWithParity']),
+            'lens': [(['q.nx', 'z.hiIn', 'z.hiOut'], ANY), (['r', 'o', 'e'], S('call:hdr', 'call:push', 'frame:HEADERS', 'frame:PP', 'frame:PRIO'))]},
+    'C10': {'scenarios': scen('SetC SetS LifeS PushS', ['P_C10_OutboundWithinPeerLimit']),
+            'lens': [(['r'], S('call:oin', 'call:oout')), (['r', 'o', 'e'], S('call:hdr', 'frame:HEADERS'))]},
+    'C11': {'scenarios': scen('SetC SetS', ['P_C11_PeerSettingsAckedOnce']),
+            'lens': [(['r', 'o', 'e', 'z.ls', 'z.rs', 'q.mof', 'q.mif', 'z.hdrCap'], S('call:set', 'frame:SET')), (['z.ls', 'z.rs'], ANY)]},
+    'C12': {'scenarios': scen('SetS SetC CloseS PushS', ['P_C12_SettingsValidation']),
+            'lens': [(['r', 'o', 'e', 'q.lw', 'q.rw', 'z.streams.ow', 'z.streams.iw', 'z.ow'], S('call:set', 'frame:SET'))]},
+    'C13': {'scenarios': scen('Pair1 HdrOutC HdrOutS PushS', ['P_C13_CleanSendsDecode']),
+            'lens': [(['o', 'r'], S('call:hdr', 'call:push')), (['r', 'e'], S('dlv'))]},
+    'C14': {'scenarios': scen('HdrOutC HdrOutS Pair1', ['P_C14_EmittedBlocksConformant']),
+            'lens': [(['r', 'o'], S('call:hdr', 'call:push'))]},
+    'C15': {'scenarios': scen('HdrInS HdrInC', ['P_C15_DeliveredBlocksConformant']),
+            'lens': [(['r', 'e', 'o'], S('frame:HEADERS', 'frame:PP'))]},
+    'C16': {'scenarios': scen('LenC LenS', ['P_C16_ContentLength']),
+            'lens': [(['r', 'e', 'o', 'z.streams.ecl', 'z.streams.acl', 'z.streams.meth'], S('frame:HEADERS', 'frame:DATA'))]},
+    'C17': {'scenarios': scen('CloseS HdrInS HdrInC LifeC', ['OnlyKnownExceptions']),
+            'lens': [(['r'], S('recv', 'dlv'))]},
+    'C18': {'scenarios': scen('CloseS LifeS SetS HdrInS', ['P_C18_OneGoAwayWithCode']),
+            'lens': [(['r', 'o'], S('recv', 'dlv'))]},
+    'C19': {'scenarios': scen('CloseS MiscC', ['P_C19_ClosedStaysQuiet']),
+            'lens': [(['r', 'o', 'z.conn'], ANY)]},
+    'C20': {'scenarios': scen('LifeC LifeS Pair1 PushC', ['P_C20_ResetRacesAreStreamErrors']),
+            'lens': [(['r', 'o', 'e', 'q.rw', 'z.iw'], S('recv', 'dlv'))]},
+    'C21': {'scenarios': [dict(s, chunked=True) for s in scen('LifeS LifeC MiscC CloseS', [])],
+            'lens': [(['r', 'o', 'e'], S('recv', 'dlv'))]},
+    'C22': {'scenarios': scen('LifeC SetC MiscS Pair1 PushC PushS', ['P_C22_PushOnlyWhenAllowed']),
+            'lens': [(['r', 'o', 'e'], S('call:push', 'frame:PP')), (['r', 'e'], S('frame:HEADERS', 'frame:DATA'))]},
+    'C23': {'scenarios': scen('MiscC MiscS', ['P_C23_PriorityChangesNothing']),
+            'lens': [(['r', 'o', 'e'], S('call:prio', 'frame:PRIO')), (['r', 'o', 'e'], S('call:hdr', 'frame:HEADERS')),
+                     (['z.streams', 'z.closed', 'z.ow', 'z.iw'], S('call:prio', 'frame:PRIO'))]},
+    'C24': {'scenarios': scen('MiscC MiscS', ['P_C24_AltSvcRules']),
+            'lens': [(['r', 'o', 'e'], S('call:alt', 'frame:ALT')), (['z.streams.auth'], ANY)]},
+    'C26': {'scenarios': scen('MiscC MiscS CloseS', ['P_C26_PingAnsweredOnce']),
+            'lens': [(['r', 'o', 'e'], S('call:ping', 'frame:PING'))]},
+    'C27': {'scenarios': scen('CloseS MiscS MiscC LifeS HdrInS PushC', ['P_C27_ClosedMemoryBounded', 'P_C27_NoStateForNonOpeningFrames']),
+            'lens': [(['z.streams', 'z.closed'], ANY), (['r', 'o'], S('frame:HEADERS', 'frame:PP', 'frame:CONT'))]},
+    'C28': {'scenarios': [dict(s, hashseeds=True) for s in scen('Pair1 SetS MiscC HdrInS', [])],
+            'lens': [(ALL_PUBLIC, ANY)]},
+    'C29': {'scenarios': scen('LifeS LifeC MiscC MiscS CloseS SetS FlowS', GENERIC),
+            'lens': [(['r', 'o'], S('call'))]},
+}
+
+NOT_APPLICABLE = {
+    'C25': 'the h2c upgrade path (initiate_upgrade_connection, HTTP2-Settings) is not modelled in spec/H2.tla yet; the '
+           'harness driver has the call but no scenario model predicts it, so nothing is claimed',
+}
+
+
+# deviations whose defect is only in the state left behind: result, frames and events of the marking step itself are
+# what the properties demand (the call raises and emits nothing), so they are still judged at that step
+STATE_ONLY = {'misuse_closes_stream', 'misuse_closes_connection', 'failed_send_partial_state', 'update_settings_partial'}
+
+
+def tainted(d):
+    """Is this divergence on a step whose prediction is the recorded behaviour of a known finding?"""
+    if d.get('dev_before'):
+        return True
+    new = set(d.get('dev', []))
+    if not new:
+        return False
+    public = [f for f in d.get('fields', []) if not f.startswith('z.')]
+    return not (new <= STATE_ONLY and public)
+
+
+def tags(d):
+    t = set()
+    a = d.get('a')
+    call = d.get('call')
+    if a == 'call':
+        t.add('call')
+        if isinstance(call, dict):
+            t.add('call:' + str(call.get('op')))
+    elif a == 'recv':
+        t.add('recv')
+        for f in call or []:
+            if isinstance(f, dict):
+                t.add('frame:' + str(f.get('t')))
+    elif a == 'dlv':
+        t.add('dlv')
+        for ty in d.get('frame_types', []):
+            t.add('frame:' + ty)
+    return t
+
+
 def in_lens(pid, d):
-    """Every field of a divergence inside a property's own scenarios counts for now."""
-    return True
+    tg = tags(d)
+    for prefixes, flt in PROPS[pid]['lens']:
+        if flt is not None and not (flt & tg):
+            continue
+        for f in d.get('fields', []):
+            if any(f == p or f.startswith(p + '.') for p in prefixes):
+                return True
+    return False
